@@ -17,8 +17,9 @@ def case_scripts(case):
     out = list(case.get("scripts", []))
     for f in case["files"]:
         for w in f.get("wxs", []):
-            if "src" in w and not any(p == w["src"] for p, _ in out):
-                out.append([w["src"], concretise.wxs_source(w["members"], concretise.FN_TABLE)])
+            key = w.get("key", w.get("src"))          # `key`: the path the spelling `src` resolves to
+            if "src" in w and not any(p == key for p, _ in out):
+                out.append([key, concretise.wxs_source(w["members"], concretise.FN_TABLE)])
     return out
 
 
